@@ -83,6 +83,32 @@ def gen_long(rng):
     return srcs
 
 
+def gen_aligned(rng):
+    """the first message is multi-line and its first line ends exactly on (or one byte around) the last byte of a block for
+    one of the sizes tried; the lines that follow carry no timestamp and run from a few bytes to several blocks"""
+    import world
+    L = rng.choice((64, 64, 96, 100, 127, 128, 255, 256)) + rng.choice((0, 0, 0, -1, 1))
+    t = 946684800_000_000_000 + rng.randrange(10**6) * 1_000_000_000
+    msgs = []
+    out = bytearray()
+    nmsg = rng.randint(4, 9)
+    for i in range(nmsg):
+        t += rng.choice((0, 1, 60)) * 1_000_000_000
+        head = world.stamp(t, 0, 1, 3) + b" A" + world.tag26(i) + b" "
+        if i == 0:
+            m = head + world._body(rng, max(0, L - len(head) - 1), 0) + b"\n"
+            for _ in range(rng.randint(1, 3)):
+                m += b" c " + world._body(rng, rng.choice((0, 5, L - 4, L - 3, L, 2 * L, 3 * L + 7, rng.randint(1, 4 * L))), 0) + b"\n"
+        else:
+            m = head + world._body(rng, rng.choice((0, 10, 40, L, 2 * L)), 0) + b"\n"
+            if rng.random() < 0.3:
+                m += b" c " + world._body(rng, rng.randint(0, 2 * L), 0) + b"\n"
+        out += m
+        msgs.append(world.Msg(t, bytes(m), b""))
+    content = bytes(out)
+    return [merge.Source("al.log", "text", msgs, content, content)], L
+
+
 def gen_case(rng):
     n = rng.choice((1, 1, 2, 3))
     target = rng.choice((64, 100, 128, 256, 512))
@@ -103,6 +129,10 @@ def run_case(seed, i, tier):
             srcs.append(merge.Source("w%d.log" % k, "text", [], content, content))
         base_opts = ["--color", "never", "--tz-offset", "+00:00"] + rng.choice(([], ["--separator", "<#>"], ["-u", "-d", "%s|"], ["-n", "--separator", "<#>", "-u"]))
         expected = None
+    elif i % 4 == 2 and i % 8 == 2:
+        srcs, L_al = gen_aligned(rng)
+        base_opts = ["--color", "never", "--tz-offset", "+00:00"]
+        expected = merge.model_stdout(srcs)
     elif i % 4 == 1:
         srcs = gen_long(rng)
         base_opts = ["--color", "never", "--tz-offset", "+00:00"]
@@ -114,11 +144,17 @@ def run_case(seed, i, tier):
     sizes = list(FIXED)
     if i % 4 == 1:
         sizes += [2048, 2055, 2056, 2057, 2100, 8192]      # around the printer's staging buffer
+    aligned = i % 8 == 2
+    if aligned:
+        al = [b for b in (L_al - 1, L_al, L_al + 1, 2 * L_al, 3 * L_al) if b >= 64]
+        sizes = al + [b for b in sizes if b not in al]
     ds = derived_sizes(rng, srcs)
     rng.shuffle(ds)
     sizes += ds[:6 if tier == "quick" else 16]
     if tier == "quick":
         keep = set(rng.sample(sizes, min(len(sizes), 8)))
+        if aligned:
+            keep.update(sizes[:3])
         sizes = [b for b in sizes if b in keep]
     cr = CaseResult()
     nw = mergecheck.n_workers(srcs)
@@ -137,6 +173,8 @@ def run_case(seed, i, tier):
         cr.probes["wild_content_family"] += 1
     if i % 4 == 1:
         cr.probes["long_line_family"] += 1
+    if aligned:
+        cr.probes["aligned_multiline_first_message_family"] += 1
     for bsz in sizes:
         if wild:
             # F-C12a steering for this family: the first line (<= 70 bytes) must end inside block zero, and a block zero
@@ -187,7 +225,7 @@ def replay(rp):
     return (rp.get("class") in cl) if rp.get("class") else bool(cl)
 
 
-RULE = ("one case = 1..3 generated text logs (boundary-targeted, all containers; every 4th case lines of 2..70 KB; every 4th "
+RULE = ("one case = 1..3 generated text logs (boundary-targeted, all containers; every 4th case lines of 2..70 KB; every 8th case a multi-line first message whose first line ends exactly on a block's last byte, followed by lines of up to several blocks; every 4th "
         "case 'wild' content with a second timestamp notation inside messages) printed at the default block size and "
         "at ~8 (quick) / all (thorough) of {64,65,100,127,128,255,256,1000,4096,65536,0xFFFFFF} + content-derived "
         "sizes (line length +-1, message length +-1, file size +-1, file size/k), decimal and hex spellings; "
